@@ -88,14 +88,21 @@ func (c *CentroidGrouping) GroupClones(pairs []*ClonePair) []*CloneGroup {
 	for _, f := range fragments {
 		unclassified[f] = true
 	}
+	// Seeds and candidates are taken in location order, not in map order, so
+	// that the same groups are formed on every run
+	ordered := make([]*CodeFragment, len(fragments))
+	copy(ordered, fragments)
+	sort.Slice(ordered, func(i, j int) bool { return fragmentLess(ordered[i], ordered[j]) })
 
 	groupID := 0
 	for len(unclassified) > 0 {
 		// Pick first unclassified fragment as seed
 		var seed *CodeFragment
-		for f := range unclassified {
-			seed = f
-			break
+		for _, f := range ordered {
+			if unclassified[f] {
+				seed = f
+				break
+			}
 		}
 		delete(unclassified, seed)
 
@@ -120,7 +127,10 @@ func (c *CentroidGrouping) GroupClones(pairs []*ClonePair) []*CloneGroup {
 
 			// Check all unclassified fragments
 			toAdd := make([]*CodeFragment, 0)
-			for candidate := range unclassified {
+			for _, candidate := range ordered {
+				if !unclassified[candidate] {
+					continue
+				}
 				// First try to use pre-computed similarity
 				var similarity float64
 				key := c.makePairKey(current, candidate)
@@ -157,8 +167,13 @@ func (c *CentroidGrouping) GroupClones(pairs []*ClonePair) []*CloneGroup {
 		if groups[i].Similarity != groups[j].Similarity {
 			return groups[i].Similarity > groups[j].Similarity
 		}
-		return groups[i].Size > groups[j].Size
+		if groups[i].Size != groups[j].Size {
+			return groups[i].Size > groups[j].Size
+		}
+		return fragmentLess(groups[i].Fragments[0], groups[j].Fragments[0])
 	})
+
+	renumberGroups(groups)
 
 	return groups
 }
